@@ -119,6 +119,14 @@ func c05Specs(tier string, seed int) []c05Spec {
 			}
 		}
 	}
+	// output interval 0 (no daily file at all): the yearly and the crop file are written all the same
+	for rot := 0; rot <= 3; rot++ {
+		for _, l := range []int{400, 700, 1000} {
+			for style := 0; style < 2; style++ {
+				out = append(out, c05Spec{Start: "2003-12-31", Len: l, Annual: []string{"0101", "3009"}[style], K: 0, Style: style, Fmt: "DateDElong", Cols: 1, Rot: rot})
+			}
+		}
+	}
 	// rotations: 1-3 harvested crops, end date before / on / after each harvest date
 	for rot := 1; rot <= 3; rot++ {
 		for _, l := range []int{100, 222, 223, 224, 400, 576, 577, 578, 700, 942, 943, 944, 1000} {
@@ -380,7 +388,7 @@ func c05Run(raw json.RawMessage, c *mc.Ctx) {
 	// ---- daily file
 	var wantDaily []string
 	for t := start; !t.After(end); t = t.AddDate(0, 0, 1) {
-		if proj.ZEIT(t)%sp.K == 0 {
+		if sp.K > 0 && proj.ZEIT(t)%sp.K == 0 {
 			wantDaily = append(wantDaily, dateStr(t))
 		}
 	}
@@ -409,7 +417,7 @@ func c05Run(raw json.RawMessage, c *mc.Ctx) {
 	}
 	var wantDailyExt []string
 	for t := start; !t.After(wend); t = t.AddDate(0, 0, 1) {
-		if proj.ZEIT(t)%sp.K == 0 {
+		if sp.K > 0 && proj.ZEIT(t)%sp.K == 0 {
 			wantDailyExt = append(wantDailyExt, dateStr(t))
 		}
 	}
